@@ -306,7 +306,15 @@ def gen_case(rng, tier):
             op = [name, lab(0.9), rng.choice([0, 1, -1, 2, 5, -4, 0.5, 2.5, 7])]
         if op is None:
             continue
-        steps.append({"h": h, "op": op})
+        st = {"h": h, "op": op}
+        if name == "scale" and op[2] is not None:
+            # every documented argument form: any iterable, including one-shot iterators
+            st["form"] = [rng.choice(["list", "tuple", "set", "frozenset", "iter", "dictkeys"]),
+                          rng.choice(["list", "tuple", "set", "frozenset", "iter", "dictkeys"])]
+        elif name in ("add_linear_from", "add_quadratic_from", "remove_variables_from", "remove_interactions_from",
+                      "q_add_variables_from", "q_add_linear_from_dflt"):
+            st["form"] = [rng.choice(["list", "list", "tuple", "iter"])]
+        steps.append(st)
     return {"kind": kind, "init": init, "steps": steps, "avoid_known": True}
 
 
@@ -567,10 +575,28 @@ class Target:
         return f"(Via {hobj.data._vartype.name})"
 
 
-def run_op(t, hname, op, T, avoid):
+def as_form(items, form):
+    """the same elements as another kind of iterable (order kept where the form has one)"""
+    items = list(items)
+    if form == "tuple":
+        return tuple(items)
+    if form == "iter":
+        return (x for x in items)          # one-shot generator
+    if form == "set":
+        return set(items)
+    if form == "frozenset":
+        return frozenset(items)
+    if form == "dictkeys":
+        return dict.fromkeys(items).keys()
+    return items
+
+
+def run_op(t, hname, op, T, avoid, form=()):
     """execute one op on target t; returns (coq op term, coq handle term, exception or None)"""
     name = op[0]
     m = t.m
+    f0 = form[0] if len(form) > 0 else "list"
+    f1 = form[1] if len(form) > 1 else "list"
     hobj = t.handle(hname) if not is_qm(m) else m
     if avoid and hobj is not m:
         # inputs of reported defects are kept out of the random stream (they live in corpus/C04):
@@ -594,10 +620,10 @@ def run_op(t, hname, op, T, avoid):
             getattr(hobj, name)(L(op[1]), L(op[2]), fl(op[3]))
         elif name == "add_linear_from":
             coq = f"(OAddLinearFrom {clist([cpair(N(v), cq(F(b))) for v, b in op[1]])})"
-            hobj.add_linear_from([(L(v), fl(b)) for v, b in op[1]])
+            hobj.add_linear_from(as_form([(L(v), fl(b)) for v, b in op[1]], f0))
         elif name == "add_quadratic_from":
             coq = f"(OAddQuadraticFrom {clist([f'({N(u)}, {N(v)}, {cq(F(b))})' for u, v, b in op[1]])})"
-            hobj.add_quadratic_from([(L(u), L(v), fl(b)) for u, v, b in op[1]])
+            hobj.add_quadratic_from(as_form([(L(u), L(v), fl(b)) for u, v, b in op[1]], f0))
         elif name == "lin_array":
             coq = f"(OAddLinearFrom {clist([cpair(cnat(T.idx(i)), cq(F(b))) for i, b in enumerate(op[1])])})"
             m.add_linear_from_array(np.array([fl(b) for b in op[1]], dtype=np.float64))
@@ -624,13 +650,13 @@ def run_op(t, hname, op, T, avoid):
                 hobj.remove_variable(L(op[1]))
         elif name == "remove_variables_from":
             coq = f"(ORemoveVariablesFrom {clist([N(v) for v in op[1]])})"
-            hobj.remove_variables_from([L(v) for v in op[1]])
+            hobj.remove_variables_from(as_form([L(v) for v in op[1]], f0))
         elif name == "remove_interaction":
             coq = f"(ORemoveInteraction {N(op[1])} {N(op[2])})"
             hobj.remove_interaction(L(op[1]), L(op[2]))
         elif name == "remove_interactions_from":
             coq = f"(ORemoveInteractionsFrom {clist([cpair(N(u), N(v)) for u, v in op[1]])})"
-            hobj.remove_interactions_from([(L(u), L(v)) for u, v in op[1]])
+            hobj.remove_interactions_from(as_form([(L(u), L(v)) for u, v in op[1]], f0))
         elif name == "contract":
             coq = f"(OContract {N(op[1])} {N(op[2])})"
             hobj.contract_variables(L(op[1]), L(op[2]))
@@ -684,8 +710,8 @@ def run_op(t, hname, op, T, avoid):
                 coq = (f"(OScale {cq(k)} {clist([N(v) for v in op[2]])} "
                        f"{clist([cpair(N(u), N(v)) for u, v in op[3]])} {cbool(op[4])})")
                 # an empty ignored list must still take the looping path only when the code does
-                hobj.scale(float(k), ignored_variables=[L(v) for v in op[2]] if (op[2] or op[3] or op[4]) else None,
-                           ignored_interactions=[(L(u), L(v)) for u, v in op[3]] if (op[2] or op[3] or op[4]) else None,
+                hobj.scale(float(k), ignored_variables=as_form([L(v) for v in op[2]], f0) if (op[2] or op[3] or op[4]) else None,
+                           ignored_interactions=as_form([(L(u), L(v)) for u, v in op[3]], f1) if (op[2] or op[3] or op[4]) else None,
                            ignore_offset=bool(op[4]))
         elif name == "update":
             o = op[1]
@@ -733,11 +759,11 @@ def run_op(t, hname, op, T, avoid):
                 coq = f"(OAddLinearFrom {clist([cpair(N(v), cq(F(b))) for v, b in op[1]])})"
             else:
                 coq = (f"(OQAddLinearFromDflt {clist([cpair(N(v), cq(F(b))) for v, b in op[1]])} {op[2]} {oq(op[3])} {oq(op[4])})")
-            m.add_linear_from([(L(v), fl(b)) for v, b in op[1]], default_vartype=op[2],
+            m.add_linear_from(as_form([(L(v), fl(b)) for v, b in op[1]], f0), default_vartype=op[2],
                               default_lower_bound=op[3], default_upper_bound=op[4])
         elif name == "q_add_variables_from":
             coq = f"(OQAddVariablesFrom {op[1]} {clist([N(v) for v in op[2]])})"
-            m.add_variables_from(op[1], [L(v) for v in op[2]])
+            m.add_variables_from(op[1], as_form([L(v) for v in op[2]], f0))
         elif name == "q_change_vartype":
             coq = f"(OQChangeVartype {op[1]} {N(op[2])})"
             m.change_vartype(op[1], L(op[2]))
@@ -789,7 +815,7 @@ def run_case(c):
         recs = []
         for t in targets:
             try:
-                coq, hterm, exc = run_op(t, h, op, T, avoid)
+                coq, hterm, exc = run_op(t, h, op, T, avoid, st.get("form") or ())
             except AssertionError as e:
                 return {"py_fail": f"[{t.name}] {name}: {e}", "features": {"kind": kind, "op": name, "target": t.name}}
             d, fail = observe(t.m, not avoid)
